@@ -12,10 +12,18 @@ FCOL = "gene.feature.FeatureIntervalCollection"
 AFIC = "gene.interval.AbstractFeatureIntervalCollection"
 
 
-def children(S, pattern, kind="tx"):
-    """k single-exon children; pattern[j] = True: coding transcript (CDS = [s_j, c_j)), False: non-coding."""
+def children(S, pattern, kind="tx", chunk=False):
+    """k single-exon children; pattern[j] = True: coding transcript (CDS = [s_j, c_j)), False: non-coding.
+    chunk=True: every child is built on a sequence-chunk parent (any window, also one that truncates or misses the
+    child) - the aggregates are functions of the CHROMOSOME coordinates and must not depend on the window."""
     out, info = [], []
     strand = strand_of(S, "strand")
+    extra = {}
+    if chunk:
+        from .c04_liftover import chunk_parent
+        cp, cs, ce = chunk_parent(S)
+        S.assume(cs < ce)
+        extra = dict(parent_or_seq_chunk_parent=cp)
     zero = S.enum_const(FRAME, "ZERO")
     for j, coding in enumerate(pattern):
         s, e = S.int(f"s{j}"), S.int(f"e{j}")
@@ -29,10 +37,10 @@ def children(S, pattern, kind="tx"):
                 S.assume(And(s < c, c <= e))
                 kw.update(cds_starts=[s], cds_ends=[c], cds_frames=[zero])
                 cds_len = c - s
-            obj = S.new(TRANSCRIPT, [s], [e], strand, **kw)
+            obj = S.new(TRANSCRIPT, [s], [e], strand, **kw, **extra)
         else:
             obj = S.new(FEATURE, [s], [e], strand, is_primary_feature=flag, feature_id=f"f{j}",
-                        feature_types=[f"type{j}", "shared"])
+                        feature_types=[f"type{j}", "shared"], **extra)
             cds_len = 0
         out.append(obj)
         info.append(NS(s=s, e=e, flag=flag, cds=cds_len, length=e - s, coding=coding))
@@ -80,10 +88,12 @@ class FindPrimary(Case):
     props = ("C20", "C19")
     func = AFIC + "._find_primary_feature"
 
-    def __init__(self, pattern, kind="tx"):
-        self.pattern, self.kind = pattern, kind
+    def __init__(self, pattern, kind="tx", chunk=False):
+        self.pattern, self.kind, self.chunk = pattern, kind, chunk
         tag = "".join("c" if p else "n" for p in pattern) if kind == "tx" else "f" * len(pattern)
-        self.name = f"_find_primary_feature[{tag}]"
+        self.name = f"_find_primary_feature[{tag}]" + ("[sequence-chunk parent]" if chunk else "")
+        if chunk:
+            self.tier = "thorough"
         self.call = "AbstractFeatureIntervalCollection._find_primary_feature(kids)"
         self.module = "gene.interval"
         self.raises = {"ValidationException": lambda i: count_true([c.flag for c in i.info]) >= 2}
@@ -94,14 +104,65 @@ class FindPrimary(Case):
         }
 
     def inputs(self, S):
-        kids, info, strand = children(S, self.pattern, self.kind)
+        kids, info, strand = children(S, self.pattern, self.kind, self.chunk)
         return NS(kids=kids, info=info)
 
     def samples(self, rng):
-        return sample_children(rng, self.pattern)
+        d = sample_children(rng, self.pattern)
+        if self.chunk:
+            from .c04_liftover import sample_chunk
+            d.update(sample_chunk(rng, hi=6))
+            if d["chunk_end"] == d["chunk_start"]:
+                d["chunk_end"] += 1
+                d["chunk_seq"] = "A"
+        return d
 
     def observe(self, r):
         return getattr(r, "transcript_id", None) or getattr(r, "feature_id", None)
+
+
+class SizeKeys(Case):
+    """The sort keys of _find_primary_feature - cds_size and len() of a transcript - are functions of the chromosome
+    coordinates: ANY sequence-chunk window (also one that truncates or misses the transcript or its CDS) leaves them
+    unchanged ('does not shrink').  With FindPrimary (parentless children) this carries the primary choice to chunk
+    parents; FindPrimary[...][sequence-chunk parent] (thorough tier) proves it directly."""
+    props = ("C20", "C07")
+    func = TRANSCRIPT + ".cds_size"
+
+    def __init__(self, n):
+        self.n = n
+        self.name = f"TranscriptInterval.cds_size / len / is_coding[{n} exon(s), any sequence-chunk window]"
+        self.call = "(tx.cds_size, len(tx), tx.is_coding, tx.start, tx.end)"
+        self.module = "gene.transcript"
+        self.ensures = {
+            "cds-size-is-chromosome-cds-length": lambda i, r: r[0] == sum((e - s for s, e in zip(i.cds_s, i.cds_e)), 0),
+            "length-is-sum-of-exons": lambda i, r: r[1] == sum((e - s for s, e in zip(i.starts, i.ends)), 0),
+            "coding": lambda i, r: r[2] is True,
+            "span": lambda i, r: And(r[3] == i.starts[0], r[4] == i.ends[-1]),
+        }
+
+    def inputs(self, S):
+        from .c04_liftover import chunk_parent
+        starts, ends = block_lists(S, "tx", self.n)
+        strand = strand_of(S, "strand")
+        cds_s, cds_e, c0, c1 = cds_in_exons(S, starts, ends)
+        zero = S.enum_const(FRAME, "ZERO")
+        cp, cs, ce = chunk_parent(S)
+        S.assume(cs < ce)
+        tx = S.new(TRANSCRIPT, starts, ends, strand, cds_starts=cds_s, cds_ends=cds_e, cds_frames=[zero] * self.n,
+                   parent_or_seq_chunk_parent=cp)
+        return NS(tx=tx, starts=starts, ends=ends, cds_s=cds_s, cds_e=cds_e)
+
+    def samples(self, rng):
+        from .c04_liftover import sample_chunk
+        d = sample_blocks(rng, "tx", self.n, length=(1, 2, 3, 5))
+        d["strand"] = rng.choice(["PLUS", "MINUS"])
+        d = sample_cds(rng, d)
+        d.update(sample_chunk(rng, hi=8))
+        if d["chunk_end"] == d["chunk_start"]:
+            d["chunk_end"] += 1
+            d["chunk_seq"] = "A"
+        return d
 
 
 class GeneAggregates(Case):
@@ -195,4 +256,5 @@ class FeatureCollectionAggregates(Case):
 
 CASES = [FindPrimary((True, True)), FindPrimary((True, False)), FindPrimary((False, False)),
          FindPrimary((True, True, True)), FindPrimary((False, False), "feature"),
-         GeneAggregates((True, True)), GeneAggregates((True, False)), FeatureCollectionAggregates()]
+         GeneAggregates((True, True)), GeneAggregates((True, False)), FeatureCollectionAggregates(),
+         FindPrimary((True, True), chunk=True), FindPrimary((True, False), chunk=True), SizeKeys(1), SizeKeys(2)]
